@@ -10,6 +10,8 @@ import (
 	"fmt"
 	"os"
 	"path/filepath"
+	"runtime"
+	"runtime/pprof"
 	"sort"
 	"strconv"
 	"strings"
@@ -55,6 +57,7 @@ type Run struct {
 	Deadline   time.Time // internal budget; checks poll Expired()
 	capped     []string
 	notes      []string
+	pprofStop  func()
 }
 
 // Start parses the environment (VERIF_TIER, VERIF_SEED) and arguments ("quick"/"thorough").
@@ -104,6 +107,25 @@ func Start(id, level string) *Run {
 		}
 	}
 	r.Deadline = r.start.Add(budget)
+	if pp := os.Getenv("VERIF_PPROF"); pp != "" { // developer aid: CPU + block profiles
+		if f, err := os.Create(pp + ".cpu"); err == nil {
+			pprof.StartCPUProfile(f)
+			runtime.SetBlockProfileRate(10000)
+			runtime.SetMutexProfileFraction(5)
+			r.pprofStop = func() {
+				pprof.StopCPUProfile()
+				f.Close()
+				if b, err := os.Create(pp + ".block"); err == nil {
+					pprof.Lookup("block").WriteTo(b, 0)
+					b.Close()
+				}
+				if b, err := os.Create(pp + ".mutex"); err == nil {
+					pprof.Lookup("mutex").WriteTo(b, 0)
+					b.Close()
+				}
+			}
+		}
+	}
 	return r
 }
 
@@ -177,23 +199,26 @@ func (r *Run) Violations() int {
 
 // Coverage mirrors EVIDENCE.schema.json's coverage object.
 type Coverage struct {
-	Evaluations     int64          `json:"evaluations"`
-	DistinctNontriv int64          `json:"distinct_nontrivial"`
-	Rule            string         `json:"rule"`
-	Samples         []any          `json:"samples"`
-	States          int64          `json:"states,omitempty"`
-	Transitions     int64          `json:"transitions,omitempty"`
-	TracesValidated int64          `json:"traces_validated_against_impl,omitempty"`
-	Exhaustive      bool           `json:"exhaustive"`
+	Evaluations     int64            `json:"evaluations"`
+	DistinctNontriv int64            `json:"distinct_nontrivial"`
+	Rule            string           `json:"rule"`
+	Samples         []any            `json:"samples"`
+	States          int64            `json:"states,omitempty"`
+	Transitions     int64            `json:"transitions,omitempty"`
+	TracesValidated int64            `json:"traces_validated_against_impl,omitempty"`
+	Exhaustive      bool             `json:"exhaustive"`
 	Outcomes        map[string]int64 `json:"distinct_outcomes,omitempty"`
-	Bounds          map[string]any `json:"bounds,omitempty"`
-	Extra           map[string]any `json:"extra,omitempty"`
+	Bounds          map[string]any   `json:"bounds,omitempty"`
+	Extra           map[string]any   `json:"extra,omitempty"`
 }
 
 // Finish writes evidence/<id>.json, prints the verdict lines and exits.
 func (r *Run) Finish(cov Coverage, assumptions []string) {
 	r.mu.Lock()
 	defer r.mu.Unlock()
+	if r.pprofStop != nil {
+		r.pprofStop()
+	}
 	if len(r.capped) > 0 {
 		cov.Exhaustive = false
 	}
